@@ -444,6 +444,209 @@ pub fn exec(line: &str) -> (String, Option<Result<(), String>>, bool, usize) {
     }
 }
 
+
+// ------------------------------------------------------------------ ISA validation (DESIGN §3.3)
+//
+// case:   c01isa <intrinsic> <operands…>      executed on this CPU; the driver replays it through
+//         LMV/Isa/Score.lean (+ Shuffle.lean); any difference is a broken tie.
+//   shuf  <32 a> <32 mask>            _mm256_shuffle_epi8(a, mask)                      -> 32 bytes
+//   bcast <16 a>                      _mm256_broadcastsi128_si256(a)                    -> 32 bytes
+//   dword <32 a>                      the 8 little-endian 32-bit lanes of a             -> 8 u32
+//   pvar  <8 t> <8 idx>               _mm256_permutevar8x32_ps(t, idx)                  -> 8 x f32 bits
+//   p2f   <imm> <8 a> <8 b>           _mm256_permute2f128_ps(a, b, imm)                 -> 8 x f32 bits
+//   gath  <n> <n mem> <base> <8 idx>  _mm256_i32gather_ps(mem + base, idx, 4)           -> 8 x f32 bits
+//   unpk  <hi> <16 a> <16 b>          _mm_unpack{lo,hi}_epi8(a, b)                      -> 16 bytes
+//   cmpand <4 a> <4 b> <4 x>          _mm_and_ps(x, cast(_mm_cmpeq_epi32(a, b)))        -> 4 x f32 bits
+//   adds  <32 a> <32 b>               _mm256_adds_epu8(a, b)                            -> 32 bytes
+//   addps <8 a> <8 b>                 _mm256_add_ps(a, b)                               -> 8 x f32 bits
+mod isa {
+    #[cfg(target_arch = "x86_64")]
+    use std::arch::x86_64::*;
+
+    pub const IMMS: [u32; 12] = [0x20, 0x31, 0x02, 0x13, 0x30, 0x21, 0x00, 0x33, 0x08, 0x80, 0x28, 0x12];
+
+    #[target_feature(enable = "avx2")]
+    unsafe fn p2f(a: __m256, b: __m256, imm: u32) -> __m256 {
+        match imm {
+            0x20 => _mm256_permute2f128_ps(a, b, 0x20),
+            0x31 => _mm256_permute2f128_ps(a, b, 0x31),
+            0x02 => _mm256_permute2f128_ps(a, b, 0x02),
+            0x13 => _mm256_permute2f128_ps(a, b, 0x13),
+            0x30 => _mm256_permute2f128_ps(a, b, 0x30),
+            0x21 => _mm256_permute2f128_ps(a, b, 0x21),
+            0x00 => _mm256_permute2f128_ps(a, b, 0x00),
+            0x33 => _mm256_permute2f128_ps(a, b, 0x33),
+            0x08 => _mm256_permute2f128_ps(a, b, 0x08),
+            0x80 => _mm256_permute2f128_ps(a, b, 0x80),
+            0x28 => _mm256_permute2f128_ps(a, b, 0x28),
+            0x12 => _mm256_permute2f128_ps(a, b, 0x12),
+            _ => panic!("immediate not in the validated set"),
+        }
+    }
+
+    #[target_feature(enable = "avx2")]
+    pub unsafe fn run(op: &str, v: &[u64]) -> Vec<u64> {
+        let b32 = |x: &[u64]| -> [u8; 32] {
+            let mut a = [0u8; 32];
+            for i in 0..32 {
+                a[i] = x[i] as u8;
+            }
+            a
+        };
+        let b16 = |x: &[u64]| -> [u8; 16] {
+            let mut a = [0u8; 16];
+            for i in 0..16 {
+                a[i] = x[i] as u8;
+            }
+            a
+        };
+        let w8 = |x: &[u64]| -> [u32; 8] {
+            let mut a = [0u32; 8];
+            for i in 0..8 {
+                a[i] = x[i] as u32;
+            }
+            a
+        };
+        let w4 = |x: &[u64]| -> [u32; 4] {
+            let mut a = [0u32; 4];
+            for i in 0..4 {
+                a[i] = x[i] as u32;
+            }
+            a
+        };
+        let out32 = |r: __m256i| -> Vec<u64> {
+            let mut o = [0u8; 32];
+            _mm256_storeu_si256(o.as_mut_ptr() as *mut __m256i, r);
+            o.iter().map(|&x| x as u64).collect()
+        };
+        let out8 = |r: __m256| -> Vec<u64> {
+            let mut o = [0u32; 8];
+            _mm256_storeu_ps(o.as_mut_ptr() as *mut f32, r);
+            o.iter().map(|&x| x as u64).collect()
+        };
+        match op {
+            "shuf" => {
+                let (a, m) = (b32(&v[0..32]), b32(&v[32..64]));
+                out32(_mm256_shuffle_epi8(_mm256_loadu_si256(a.as_ptr() as *const __m256i), _mm256_loadu_si256(m.as_ptr() as *const __m256i)))
+            }
+            "bcast" => {
+                let a = b16(&v[0..16]);
+                out32(_mm256_broadcastsi128_si256(_mm_loadu_si128(a.as_ptr() as *const __m128i)))
+            }
+            "dword" => {
+                let a = b32(&v[0..32]);
+                let mut o = [0u32; 8];
+                _mm256_storeu_si256(o.as_mut_ptr() as *mut __m256i, _mm256_loadu_si256(a.as_ptr() as *const __m256i));
+                o.iter().map(|&x| x as u64).collect()
+            }
+            "pvar" => {
+                let (t, i) = (w8(&v[0..8]), w8(&v[8..16]));
+                out8(_mm256_permutevar8x32_ps(_mm256_loadu_ps(t.as_ptr() as *const f32), _mm256_loadu_si256(i.as_ptr() as *const __m256i)))
+            }
+            "p2f" => {
+                let (a, b) = (w8(&v[1..9]), w8(&v[9..17]));
+                out8(p2f(_mm256_loadu_ps(a.as_ptr() as *const f32), _mm256_loadu_ps(b.as_ptr() as *const f32), v[0] as u32))
+            }
+            "gath" => {
+                let n = v[0] as usize;
+                let mem: Vec<u32> = v[1..1 + n].iter().map(|&x| x as u32).collect();
+                let base = v[1 + n] as usize;
+                let idx = w8(&v[2 + n..10 + n]);
+                out8(_mm256_i32gather_ps::<4>((mem.as_ptr() as *const f32).add(base), _mm256_loadu_si256(idx.as_ptr() as *const __m256i)))
+            }
+            "unpk" => {
+                let (a, b) = (b16(&v[1..17]), b16(&v[17..33]));
+                let (ra, rb) = (_mm_loadu_si128(a.as_ptr() as *const __m128i), _mm_loadu_si128(b.as_ptr() as *const __m128i));
+                let r = if v[0] == 1 { _mm_unpackhi_epi8(ra, rb) } else { _mm_unpacklo_epi8(ra, rb) };
+                let mut o = [0u8; 16];
+                _mm_storeu_si128(o.as_mut_ptr() as *mut __m128i, r);
+                o.iter().map(|&x| x as u64).collect()
+            }
+            "cmpand" => {
+                let (a, b, x) = (w4(&v[0..4]), w4(&v[4..8]), w4(&v[8..12]));
+                let p = _mm_castsi128_ps(_mm_cmpeq_epi32(_mm_loadu_si128(a.as_ptr() as *const __m128i), _mm_loadu_si128(b.as_ptr() as *const __m128i)));
+                let r = _mm_and_ps(_mm_loadu_ps(x.as_ptr() as *const f32), p);
+                let mut o = [0u32; 4];
+                _mm_storeu_ps(o.as_mut_ptr() as *mut f32, r);
+                o.iter().map(|&x| x as u64).collect()
+            }
+            "adds" => {
+                let (a, b) = (b32(&v[0..32]), b32(&v[32..64]));
+                out32(_mm256_adds_epu8(_mm256_loadu_si256(a.as_ptr() as *const __m256i), _mm256_loadu_si256(b.as_ptr() as *const __m256i)))
+            }
+            "addps" => {
+                let (a, b) = (w8(&v[0..8]), w8(&v[8..16]));
+                out8(_mm256_add_ps(_mm256_loadu_ps(a.as_ptr() as *const f32), _mm256_loadu_ps(b.as_ptr() as *const f32)))
+            }
+            _ => panic!("bad isa op {}", op),
+        }
+    }
+}
+
+fn exec_isa(line: &str) -> String {
+    let t: Vec<&str> = line.split_whitespace().collect();
+    let v: Vec<u64> = t[2..].iter().map(|x| x.parse().unwrap()).collect();
+    match guarded(|| unsafe { isa::run(t[1], &v) }) {
+        Ok(o) => join(o.iter()),
+        Err(()) => "panic".into(),
+    }
+}
+
+fn f32_operand(rng: &mut Rng) -> u32 {
+    match rng.below(8) {
+        0 => f32::NEG_INFINITY.to_bits(),
+        1 => 0,
+        2 => (-0.0f32).to_bits(),
+        3 => rng.below(1 << 23) as u32 + 1,
+        4 => (((rng.f64() * 2.0 - 1.0) * 1.0e30) as f32).to_bits(),
+        _ => ((rng.f64() * 40.0 - 30.0) as f32).to_bits(),
+    }
+}
+
+fn generate_isa(cfg: &Cfg, rng: &mut Rng) -> Vec<String> {
+    let mut cases = Vec::new();
+    let n = (if cfg.thorough { 2000 } else { 120 }) * cfg.boost;
+    let bytes = |rng: &mut Rng, k: usize, distinct: bool| -> Vec<u64> {
+        if distinct {
+            // an all-lanes-distinct labelling determines a data-independent rearrangement completely
+            let off = rng.below(100);
+            (0..k).map(|i| (off + i) as u64).collect()
+        } else {
+            (0..k).map(|_| rng.below(256) as u64).collect()
+        }
+    };
+    for i in 0..n {
+        let d = i % 2 == 0;
+        // shuffle masks: plain indices, high-bit set, values >= 16 (only the low 4 bits count)
+        let mask: Vec<u64> = (0..32).map(|_| match rng.below(4) { 0 => rng.below(16) as u64, 1 => 128 + rng.below(128) as u64, _ => rng.below(256) as u64 }).collect();
+        cases.push(format!("c01isa shuf {} {}", join(bytes(rng, 32, d).iter()), join(mask.iter())));
+        cases.push(format!("c01isa bcast {}", join(bytes(rng, 16, d).iter())));
+        cases.push(format!("c01isa dword {}", join(bytes(rng, 32, false).iter())));
+        let t: Vec<u64> = (0..8).map(|_| f32_operand(rng) as u64).collect();
+        let idx: Vec<u64> = (0..8).map(|_| if rng.chance(1, 2) { rng.below(8) as u64 } else { rng.next() & 0xFFFF_FFFF }).collect();
+        cases.push(format!("c01isa pvar {} {}", join(t.iter()), join(idx.iter())));
+        let a: Vec<u64> = (0..8).map(|k| if d { 100 + k as u64 } else { f32_operand(rng) as u64 }).collect();
+        let b: Vec<u64> = (0..8).map(|k| if d { 200 + k as u64 } else { f32_operand(rng) as u64 }).collect();
+        cases.push(format!("c01isa p2f {} {} {}", isa::IMMS[i % isa::IMMS.len()], join(a.iter()), join(b.iter())));
+        // gather: a table of n floats, base somewhere inside, offsets (also negative) staying inside
+        let nmem = rng.range(1, 64);
+        let mem: Vec<u64> = (0..nmem).map(|k| if d { 1000 + k as u64 } else { f32_operand(rng) as u64 }).collect();
+        let base = rng.below(nmem);
+        let gidx: Vec<u64> = (0..8).map(|_| (rng.below(nmem) as i64 - base as i64) as i32 as u32 as u64).collect();
+        cases.push(format!("c01isa gath {} {} {} {}", nmem, join(mem.iter()), base, join(gidx.iter())));
+        cases.push(format!("c01isa unpk {} {} {}", i % 2, join(bytes(rng, 16, true).iter()), join((0..16).map(|k| 150 + k as u64)).as_str()));
+        let ca: Vec<u64> = (0..4).map(|_| rng.below(4) as u64).collect();
+        let cb: Vec<u64> = (0..4).map(|_| rng.below(4) as u64).collect();
+        let cx: Vec<u64> = (0..4).map(|_| f32_operand(rng) as u64).collect();
+        cases.push(format!("c01isa cmpand {} {} {}", join(ca.iter()), join(cb.iter()), join(cx.iter())));
+        cases.push(format!("c01isa adds {} {}", join(bytes(rng, 32, false).iter()), join(bytes(rng, 32, false).iter())));
+        let pa: Vec<u64> = (0..8).map(|_| f32_operand(rng) as u64).collect();
+        let pb: Vec<u64> = (0..8).map(|_| if rng.chance(1, 4) { 0 } else { f32_operand(rng) as u64 }).collect();
+        cases.push(format!("c01isa addps {} {}", join(pa.iter()), join(pb.iter())));
+    }
+    cases
+}
+
 // ------------------------------------------------------------------------------------ generators
 
 fn seq(rng: &mut Rng, k: usize, n: usize) -> String {
@@ -703,6 +906,8 @@ pub fn generate(cfg: &Cfg) -> Vec<String> {
             cases.push(edge_line(&mut rng, alpha, k, ty));
         }
     }
+    // the intrinsic semantics of LMV/Isa/Score.lean against this CPU
+    cases.extend(generate_isa(cfg, &mut rng));
     cases
 }
 
@@ -711,6 +916,12 @@ pub fn run(cfg: &Cfg) {
     let mut out = Out::new(&cfg.out);
     for c in &cases {
         out.announce(c);
+        if c.starts_with("c01isa ") {
+            let ans = exec_isa(c);
+            out.stat(&format!("isa/{}", c.split_whitespace().nth(1).unwrap_or("")));
+            out.case(c, &ans, None, false);
+            continue;
+        }
         let (ans, o, nt, panics) = exec(c);
         let t: Vec<&str> = c.split_whitespace().collect();
         out.stat(&format!("{}/{}", t[1], t[2]));
